@@ -467,7 +467,7 @@ func isHeaderField(tag Tag, dataDict *datadictionary.DataDictionary) bool {
 		return true
 	}
 
-	if dataDict == nil {
+	if dataDict == nil || dataDict.Header == nil {
 		return false
 	}
 
@@ -480,7 +480,7 @@ func isTrailerField(tag Tag, dataDict *datadictionary.DataDictionary) bool {
 		return true
 	}
 
-	if dataDict == nil {
+	if dataDict == nil || dataDict.Trailer == nil {
 		return false
 	}
 
